@@ -47,6 +47,7 @@ struct Ref {
     std::string body;
     size_t consumed = 0;
     bool tolerated = false;
+    bool bwsAfterExt = false;   // tolerated BWS sits between a chunk extension and CRLF
     const char *why = "";
 };
 
@@ -93,6 +94,7 @@ Ref refDecode(const std::string &in, const bool relaxed)
         if (overflow) ERR_("size-overflow");
         pos = p;
         // ---- chunk-ext
+        unsigned nExt = 0;
         for (;;) {
             bool odd;
             size_t j = skipBws(pos, odd);
@@ -109,6 +111,7 @@ Ref refDecode(const std::string &in, const bool relaxed)
             pos = q;
             j = skipBws(pos, odd);
             if (j == n) MORE_;
+            ++nExt;
             if (in[j] != '=') continue;
             if (odd) r.tolerated = true;
             j = skipBws(j + 1, odd);
@@ -144,10 +147,10 @@ Ref refDecode(const std::string &in, const bool relaxed)
             size_t j = pos;
             while (j < n && isWsp(in[j])) ++j;
             if (j == n) MORE_;
+            if (j > pos) { r.tolerated = true; if (nExt) r.bwsAfterExt = true; } // flagged at once: Squid may refuse before it sees the CRLF
             if (in[j] != '\r') ERR_("missing-crlf-after-size");
             if (j + 1 == n) MORE_;
             if (in[j+1] != '\n') ERR_("missing-crlf-after-size");
-            if (j > pos) r.tolerated = true;
             pos = j + 2;
         }
         if (v > 0) {
@@ -214,6 +217,13 @@ struct Obs {
                "|http=" + std::to_string(httpStatus) + "|rest=" + V::esc(rest) + "|out=" + V::esc(out) + "|mime=" + V::esc(mime);
     }
     const char *statusName() const { static const char *n[] = {"need-more", "done", "error", "livelock"}; return n[status]; }
+    // complete-state equality (what key() spells out)
+    bool same(const Obs &b) const
+    {
+        if (status != b.status) return false;
+        if (status >= 2) return true;
+        return stage == b.stage && chunkSize == b.chunkSize && left == b.left && httpStatus == b.httpStatus && rest == b.rest && out == b.out && mime == b.mime;
+    }
 };
 
 uint64_t nParse = 0, nStalls = 0, nRuns = 0, nRealDone = 0, nRealMore = 0, nRealError = 0, nToleratedAccepted = 0, nToleratedRejected = 0, nTrailerMay = 0;
@@ -239,9 +249,11 @@ struct Real {
         mb.consume(nbytes);
     }
 
-    void feed(const std::string &piece)
+    void feed(const std::string &piece) { feed(piece.data(), piece.size()); }
+
+    void feed(const char *piece, const size_t pieceLen)
     {
-        inBuf.append(piece.data(), piece.size());
+        inBuf.append(piece, pieceLen);
         if (status)
             return; // callers stop parsing after the end of the body / after an error
         for (unsigned iter = 0;; ++iter) {
@@ -286,50 +298,70 @@ struct Real {
     }
 };
 
-bool endsWith(const std::string &s, const std::string &suffix)
+// Compares what the real parser did with the first fedLen bytes of `in` against the reference verdict
+// for those bytes.  Returns nullptr if consistent, else what is wrong (details are formatted by the caller).
+const char *problem(const std::string &in, const size_t fedLen, const Ref &ref, const Obs &o)
 {
-    return s.size() >= suffix.size() && s.compare(s.size() - suffix.size(), suffix.size(), suffix) == 0;
-}
-
-// Compares what the real parser did with the bytes fed so far against the reference verdict.
-// Returns false (after V::fail) on a mismatch.
-bool judge(const std::string &fed, const Ref &ref, const Obs &o, const std::string &cfg)
-{
-    const std::string head = cfg + ": reference says " + rvName(ref.v) + (ref.why[0] ? std::string("(") + ref.why + ")" : "") +
-                             (ref.tolerated ? "[tolerated syntax]" : "") + ", parser says " + o.statusName() +
-                             (o.status == 2 ? " (" + o.err.substr(0, 80) + ")" : "") + ": ";
-    if (o.status == 3) { V::fail(head + "the parse/drain loop made no progress"); return false; }
-    if (o.status != 2 && !endsWith(fed, o.rest)) { V::fail(head + "the unparsed remainder '" + V::esc(o.rest) + "' is not a suffix of the input"); return false; }
+    if (o.status == 3) return "the parse/drain loop made no progress";
+    if (o.status != 2 && (o.rest.size() > fedLen || in.compare(fedLen - o.rest.size(), o.rest.size(), o.rest) != 0))
+        return "the unparsed remainder is not a suffix of the input";
     switch (ref.v) {
     case R_DONE:
-        if (o.status == 2 && ref.tolerated) return true;
-        if (o.status != 1) { V::fail(head + "a complete valid chunked body was not decoded to the end"); return false; }
-        if (o.out != ref.body) { V::fail(head + "decoded '" + V::esc(o.out) + "' != body '" + V::esc(ref.body) + "'"); return false; }
-        if (fed.size() - o.rest.size() != ref.consumed) { V::fail(head + "consumed " + std::to_string(fed.size() - o.rest.size()) + " bytes, encoding has " + std::to_string(ref.consumed)); return false; }
-        return true;
+        if (o.status == 2 && ref.tolerated) return nullptr;
+        if (o.status != 1) return "a complete valid chunked body was not decoded to the end";
+        if (o.out != ref.body) return "the decoded bytes differ from the body";
+        if (fedLen - o.rest.size() != ref.consumed) return "the consumed length differs from the length of the encoding";
+        return nullptr;
     case R_MORE:
-        if (o.status == 2 && ref.tolerated) return true;
-        if (o.status != 0) { V::fail(head + "truncated input must only ask for more data"); return false; }
-        if (ref.body.compare(0, o.out.size(), o.out) != 0 || o.out.size() > ref.body.size()) { V::fail(head + "decoded '" + V::esc(o.out) + "' is not a prefix of the available body '" + V::esc(ref.body) + "'"); return false; }
-        return true;
+        if (o.status == 2 && ref.tolerated) return nullptr;
+        if (o.status != 0) return "truncated input must only ask for more data";
+        if (o.out.size() > ref.body.size() || ref.body.compare(0, o.out.size(), o.out) != 0) return "the decoded bytes are not a prefix of the available body";
+        return nullptr;
     case R_ERROR:
-        if (o.status != 2) { V::fail(head + "malformed framing was not rejected"); return false; }
-        return true;
+        return o.status != 2 ? "malformed framing was not rejected" : nullptr;
     case R_ERR_OR_MORE:
-        if (o.status == 1) { V::fail(head + "an overflowing chunk size was accepted"); return false; }
-        return true;
+        return o.status == 1 ? "an overflowing chunk size was accepted" : nullptr;
     case R_TRAILER_MAY:
-        if (o.status != 2 && o.out != ref.body) { V::fail(head + "decoded '" + V::esc(o.out) + "' != body '" + V::esc(ref.body) + "'"); return false; }
-        return true;
+        return (o.status != 2 && o.out != ref.body) ? "the decoded bytes differ from the body" : nullptr;
     }
-    return true;
+    return nullptr;
 }
 
 struct Cfg { int cap; int drain; };
 
+uint64_t nKnownClassHits = 0, nAllSeg = 0;
+
+// Reports that one feeding pattern ended in a different complete state than the one-piece feed.
+void stateMismatch(const std::string &where, const std::string &got, const std::string &base, const char *baseName, const Ref &ref)
+{
+    const bool acceptanceFlip = (got == "error") != (base == "error");
+    if (acceptanceFlip && ref.bwsAfterExt) {
+        // one stable key for this input class; a few written-out instances per shard are enough
+        if (++nKnownClassHits <= 3)
+            V::failKey("bws-between-chunk-ext-and-crlf:acceptance-depends-on-segmentation",
+                       where + ": complete state {" + got + "} differs from " + baseName + " {" + base + "}: whitespace between the last chunk extension and CRLF is refused "
+                       "in one piece but accepted when the input is split after that whitespace");
+        return;
+    }
+    V::fail(where + ": complete state {" + got + "} differs from " + baseName + " {" + base + "}");
+}
+
 std::string cfgName(bool relaxed, const Cfg &c, const std::string &how)
 {
     return std::string("relaxed=") + (relaxed ? "on" : "off") + " max_capacity=" + std::to_string(c.cap) + " drain=" + drainName(c.drain) + " " + how;
+}
+
+// judge(): true if consistent; otherwise reports (the message is only built on failure)
+template <class How>
+bool judge(const std::string &in, const size_t fedLen, const Ref &ref, const Obs &o, bool relaxed, const Cfg &c, const How &how)
+{
+    const char *what = problem(in, fedLen, ref, o);
+    if (!what) return true;
+    V::fail(cfgName(relaxed, c, how()) + ": reference says " + rvName(ref.v) + (ref.why[0] ? std::string("(") + ref.why + ")" : "") +
+            (ref.tolerated ? "[tolerated syntax]" : "") + ", parser says " + o.statusName() + (o.status == 2 ? " (" + o.err.substr(0, 80) + ")" : "") + ": " + what +
+            "; fed '" + V::esc(in.substr(0, fedLen)) + "', decoded '" + V::esc(o.out) + "', unparsed '" + V::esc(o.rest) + "', reference body '" + V::esc(ref.body) +
+            "' consumed " + std::to_string(ref.consumed));
+    return false;
 }
 
 // Runs one input under: whole feed x wholeCfgs; every 2-piece split x splitCfgs; byte-by-byte; and
@@ -349,40 +381,39 @@ CaseStats runInput(const std::string &in, const std::vector<Cfg> &wholeCfgs, con
         for (size_t k = 0; k <= n; ++k) pref[k] = refDecode(in.substr(0, k), relaxed);
         const Ref &ref = pref[n];
         (relaxed ? cs.refRelaxed : cs.refStrict) = ref;
-        std::string base;
+        Obs base;
         bool haveBase = false;
         for (const Cfg &c : wholeCfgs) {
             Real r(c.cap, c.drain);
             r.feed(in);
             const Obs o = r.snapshot();
             if (!haveBase) {
-                base = o.key(); haveBase = true;
+                base = o; haveBase = true;
                 if (o.status == 1) ++nRealDone; else if (o.status == 0) ++nRealMore; else ++nRealError;
                 if (ref.tolerated && (ref.v == R_DONE || ref.v == R_MORE)) { if (o.status == 2) ++nToleratedRejected; else ++nToleratedAccepted; }
                 if (ref.v == R_TRAILER_MAY) ++nTrailerMay;
             }
-            if (!judge(in, ref, o, cfgName(relaxed, c, "whole"))) return cs;
-            if (o.key() != base) { V::fail(cfgName(relaxed, c, "whole") + ": complete state {" + o.key() + "} differs from the first configuration's {" + base + "}"); return cs; }
+            if (!judge(in, n, ref, o, relaxed, c, [] { return std::string("whole"); })) return cs;
+            if (!o.same(base)) { stateMismatch(cfgName(relaxed, c, "whole"), o.key(), base.key(), "the first configuration's", ref); return cs; }
         }
         for (const Cfg &c : splitCfgs) {
             for (size_t k = 0; k <= n; ++k) {
                 Real r(c.cap, c.drain);
-                const std::string how = "split at " + std::to_string(k);
-                r.feed(in.substr(0, k));
-                if (!judge(in.substr(0, k), pref[k], r.snapshot(), cfgName(relaxed, c, how + " (after piece 1)"))) return cs;
-                r.feed(in.substr(k));
+                r.feed(in.data(), k);
+                if (!judge(in, k, pref[k], r.snapshot(), relaxed, c, [k] { return "split at " + std::to_string(k) + " (after piece 1)"; })) return cs;
+                r.feed(in.data() + k, n - k);
                 const Obs o = r.snapshot();
-                if (!judge(in, ref, o, cfgName(relaxed, c, how))) return cs;
-                if (o.key() != base) { V::fail(cfgName(relaxed, c, how) + ": complete state {" + o.key() + "} differs from the one-piece state {" + base + "}"); return cs; }
+                if (!judge(in, n, ref, o, relaxed, c, [k] { return "split at " + std::to_string(k); })) return cs;
+                if (!o.same(base)) { stateMismatch(cfgName(relaxed, c, "split at " + std::to_string(k)), o.key(), base.key(), "the one-piece state", ref); return cs; }
             }
             // byte by byte
             Real r(c.cap, c.drain);
             for (size_t k = 0; k < n; ++k) {
-                r.feed(in.substr(k, 1));
-                if (!judge(in.substr(0, k + 1), pref[k+1], r.snapshot(), cfgName(relaxed, c, "byte-by-byte after " + std::to_string(k + 1)))) return cs;
+                r.feed(in.data() + k, 1);
+                if (!judge(in, k + 1, pref[k+1], r.snapshot(), relaxed, c, [k] { return "byte-by-byte after " + std::to_string(k + 1); })) return cs;
             }
             const Obs o = r.snapshot();
-            if (o.key() != base) { V::fail(cfgName(relaxed, c, "byte-by-byte") + ": complete state {" + o.key() + "} differs from the one-piece state {" + base + "}"); return cs; }
+            if (!o.same(base)) { stateMismatch(cfgName(relaxed, c, "byte-by-byte"), o.key(), base.key(), "the one-piece state", ref); return cs; }
         }
         if (allSeg && n >= 2 && n <= 13) {
             const Cfg cfgs[] = {{65, D_EAGER}, {2, D_LAZY}};
@@ -391,10 +422,10 @@ CaseStats runInput(const std::string &in, const std::vector<Cfg> &wholeCfgs, con
                     Real r(c.cap, c.drain);
                     size_t from = 0;
                     for (size_t i = 1; i <= n; ++i)
-                        if (i == n || (mask & (1u << (i - 1)))) { r.feed(in.substr(from, i - from)); from = i; }
+                        if (i == n || (mask & (1u << (i - 1)))) { r.feed(in.data() + from, i - from); from = i; }
                     const Obs o = r.snapshot();
-                    V::count("all_segmentation_runs");
-                    if (o.key() != base) { V::fail(cfgName(relaxed, c, "segmentation mask " + std::to_string(mask)) + ": complete state {" + o.key() + "} differs from the one-piece state {" + base + "}"); return cs; }
+                    ++nAllSeg;
+                    if (!o.same(base)) { stateMismatch(cfgName(relaxed, c, "segmentation mask " + std::to_string(mask)), o.key(), base.key(), "the one-piece state", ref); return cs; }
                 }
         }
     }
@@ -510,7 +541,7 @@ void validCase(const std::string &desc, const Encoded &e, const std::vector<Cfg>
                 if (ref.v != R_DONE || ref.consumed != e.bytes.size()) { V::failKey("harness:reference-consumes-junk", "reference mishandles trailing bytes"); break; }
                 Real r(65, D_EAGER);
                 r.feed(in);
-                judge(in, ref, r.snapshot(), cfgName(relaxed, Cfg{65, D_EAGER}, std::string("whole with following bytes '") + V::esc(j) + "'"));
+                judge(in, in.size(), ref, r.snapshot(), relaxed, Cfg{65, D_EAGER}, [j] { return std::string("whole with following bytes '") + V::esc(j) + "'"; });
             }
             Config.onoff.relaxed_header_parser = 0;
         }
@@ -578,14 +609,16 @@ void body(V::Ctx &ctx)
 {
     Mem::Init();
     const bool quick = ctx.quick();
+    const char *only = getenv("C24_ONLY"); // development aid: run one family
 
     // ---- (a) valid encodings of short bodies
-    const int N = quick ? 4 : 6;
+    const int N = quick ? 3 : 6;
     const std::vector<Cfg> wholeAll = {{65, D_EAGER}, {0, D_EAGER}, {2, D_EAGER}, {3, D_EAGER}, {5, D_EAGER}, {2, D_LAZY}, {3, D_LAZY}, {5, D_LAZY}, {65, D_LAZY},
                                        {3, D_ONE}, {5, D_ONE}, {65, D_ONE}};
     const std::vector<Cfg> splitQuick = {{65, D_EAGER}, {2, D_EAGER}, {3, D_LAZY}, {5, D_ONE}};
+    const std::vector<Cfg> splitBig = {{65, D_EAGER}, {0, D_LAZY}}; // long chunks: no 1-byte-per-call configurations at every split
     const std::vector<Cfg> &splitValid = quick ? splitQuick : wholeAll;
-    for (int n = 0; n <= N; ++n)
+    for (int n = 0; n <= N && (!only || !strcmp(only, "a")); ++n)
         for (int f = 0; f < (n ? 2 : 1); ++f) {
             const std::string bodyBytes = fillerBody(f, n);
             for (unsigned comp = 0; comp < (n ? 1u << (n - 1) : 1u); ++comp) {
@@ -604,7 +637,8 @@ void body(V::Ctx &ctx)
                         for (int where = -1; where < positions; ++where) {
                             if (si == 0 && ei == 0 && where >= 0) continue; // undecorated: once
                             if (positions == 1 && where >= 0) continue;     // same as "every position"
-                            for (int ti = 0; ti < NTrailers; ++ti) {
+                            // trailers vary with uniformly decorated chunks; single-position decorations use no trailer
+                            for (int ti = 0; ti < (where < 0 ? NTrailers : 1); ++ti) {
                                 const Encoded e = encode(bodyBytes, sizes, si, ei, where, ti);
                                 char d[128];
                                 snprintf(d, sizeof d, "v:n=%d,filler=%d,comp=%u,spell=%d,ext=%d,where=%d,trailer=%d", n, f, comp, si, ei, where, ti);
@@ -615,7 +649,7 @@ void body(V::Ctx &ctx)
         }
 
     // ---- (a2) sizes that need hex letters / several digits, one or two chunks
-    {
+    if (!only || !strcmp(only, "a2")) {
         const size_t big[] = {10, 11, 15, 16, 17, 26, 31, 32, 171, 255, 256, 257};
         const int exts[] = {0, 2};
         for (size_t sz : big)
@@ -629,17 +663,64 @@ void body(V::Ctx &ctx)
                         const Encoded e = encode(bodyBytes, sizes, si, ei, -1, 0);
                         char d[128];
                         snprintf(d, sizeof d, "h:size=%zu,chunks=%d,spell=%d,ext=%d", sz, two + 1, si, ei);
-                        validCase(d, e, wholeAll, splitQuick, false);
+                        validCase(d, e, wholeAll, splitBig, false);
                     }
     }
 
     // ---- (b) token strings over a hostile alphabet
-    {
-        const std::vector<Cfg> whole = {{65, D_EAGER}, {2, D_EAGER}, {3, D_LAZY}};
-        const std::vector<Cfg> split = {{65, D_EAGER}, {2, D_LAZY}};
+    const std::vector<Cfg> tokWhole = {{65, D_EAGER}, {2, D_EAGER}, {3, D_LAZY}};
+    const std::vector<Cfg> tokSplitQuick = {{65, D_EAGER}};
+    const std::vector<Cfg> tokSplitThorough = {{65, D_EAGER}, {2, D_LAZY}};
+    const std::vector<Cfg> &tokSplit = quick ? tokSplitQuick : tokSplitThorough;
+    if (!only || !strcmp(only, "b")) {
         std::vector<int> idx;
         std::string s;
-        tokenWalk(idx, s, quick ? 3 : 4, quick ? 6 : 8, whole, split);
+        tokenWalk(idx, s, quick ? 3 : 4, quick ? 4 : 5, tokWhole, tokSplit);
+    }
+
+    // ---- (c) every single edit of valid encodings (delete a byte, replace a byte by an edit token,
+    //          insert an edit token), which reaches malformed framing deep inside a body
+    if (!only || !strcmp(only, "c")) {
+        static const std::vector<std::string> edits = {"0", "1", "a", "g", ";", "=", "x", "\"", "\\", " ", "\r", "\n", "\r\n", "\x0b", std::string(1, '\0'), "0x", "8000000000000000"};
+        const int exts[] = {0, 2, 3, 5};
+        const int trailers[] = {0, 1};
+        std::set<std::string> seen;
+        const int NC = quick ? 2 : 3;
+        for (int n = 0; n <= NC; ++n)
+            for (unsigned comp = 0; comp < (n ? 1u << (n - 1) : 1u); ++comp) {
+                std::vector<size_t> sizes;
+                if (n) {
+                    size_t run = 1;
+                    for (int i = 1; i < n; ++i) {
+                        if (comp & (1u << (i - 1))) { sizes.push_back(run); run = 1; }
+                        else ++run;
+                    }
+                    sizes.push_back(run);
+                }
+                for (int ei : exts)
+                    for (int ti : trailers) {
+                        const Encoded e = encode(fillerBody(0, n), sizes, 0, ei, -1, ti);
+                        const std::string &b = e.bytes;
+                        for (size_t p = 0; p <= b.size(); ++p)
+                            for (int kind = 0; kind < 3; ++kind) {      // 0 delete, 1 replace, 2 insert
+                                if (kind < 2 && p == b.size()) continue;
+                                for (size_t t = 0; t < (kind == 0 ? 1 : edits.size()); ++t) {
+                                    std::string m = b.substr(0, p);
+                                    if (kind) m += edits[t];
+                                    m += b.substr(kind == 2 ? p : p + 1);
+                                    if (!seen.insert(m).second) continue;
+                                    if (!V::begin_case("e:" + V::esc(m))) continue;
+                                    const CaseStats cs = runInput(m, tokWhole, tokSplit, false);
+                                    const Ref &r = cs.refStrict;
+                                    std::string klass = std::string("edit:") + rvName(r.v);
+                                    if (r.v == R_ERROR || r.v == R_ERR_OR_MORE) klass += std::string(":") + r.why;
+                                    else if (r.tolerated) klass += ":tolerated";
+                                    V::outcome(klass);
+                                    V::end_case();
+                                }
+                            }
+                    }
+            }
     }
 
     V::count("parse_calls", nParse);
@@ -652,6 +733,8 @@ void body(V::Ctx &ctx)
     V::count("tolerated_accepted", nToleratedAccepted);
     V::count("tolerated_rejected", nToleratedRejected);
     V::count("trailer_unspecified", nTrailerMay);
+    V::count("all_segmentation_runs", nAllSeg);
+    V::count("known_class_bws_after_ext_hits", nKnownClassHits);
 }
 
 } // namespace
